@@ -36,9 +36,8 @@ def writer_sequences(run, rng, long_quick=False):
     for b in ws:
         out.append((rng.choice(pools.CTOR_ENCODINGS), wgen.conc(b, rng), 'random-walk'))
     # very long first lines (beyond 4 KiB / 8 KiB windows), line endings left to detection: a handful of sequences
-    # (TLC needs two minutes for an 8 KiB line - its sequences are immutable, Find/Indent recurse per byte: the
-    # 8 KiB sequences run in the thorough tiers only, C02's quick tier has the 4 KiB one)
-    longs = pools.LONG_TEXTS if not quick else (pools.LONG_TEXTS[1:2] if long_quick else [])     # quick: the 4 KiB one
+    # (affordable since Bytes!Find is no longer recursive: an 8 KiB line costs TLC about 15 s)
+    longs = pools.LONG_TEXTS
     for k, t in enumerate(longs):
         out.append(('utf-8', [('preamble', {'text': t, 'indent': rng.choice([0, 4])}), ('change', {}), ('file', {}),
                               ('meta', {'metadata': {'path': 'long'}}),
